@@ -42,6 +42,7 @@ func C02(c *core.Ctx) {
 			}
 			runMember(c, mb, rules, 256, func(w *fam.World, fm *fam.FileModel) []fam.Issue {
 				var keep []fam.Issue
+				keep = append(keep, unionTypeIssues(mb.name, fm)...)
 				for _, is := range checkRoot(w, fm) {
 					if is.Rule == "A-REJ" && strings.Contains(is.Construct, "nested check does not measure") {
 						// a check that indexes another array than the one being iterated refuses valid documents (or panics on them)
